@@ -436,3 +436,47 @@ unsafe fn dispose_general_node<T: RcObject>(
         guard.defer_with_inner(rc, |rc| RcInner::try_destruct(rc));
     }
 }
+
+/// Read-only access to the count word and the epoch arithmetic for the verification harness.
+#[cfg(circ_verif)]
+pub(crate) mod verif_shim {
+    use super::*;
+
+    /// `(strong, weak, destructed, weaked, epoch)` of the block at `ptr`.
+    pub(crate) unsafe fn counts_ptr<T>(ptr: *const RcInner<T>) -> (u32, u32, bool, bool, u32) {
+        state_fields((*ptr).state.load(Ordering::SeqCst))
+    }
+
+    pub fn state_fields(raw: u64) -> (u32, u32, bool, bool, u32) {
+        let s = State::from_raw(raw);
+        (s.strong(), s.weak(), s.destructed(), s.weaked(), s.epoch())
+    }
+    pub fn state_with_epoch(raw: u64, epoch: usize) -> u64 {
+        State::from_raw(raw).with_epoch(epoch).as_raw()
+    }
+    pub fn state_add_strong(raw: u64, val: u32) -> u64 {
+        State::from_raw(raw).add_strong(val).as_raw()
+    }
+    pub fn state_sub_strong(raw: u64, val: u32) -> u64 {
+        State::from_raw(raw).sub_strong(val).as_raw()
+    }
+    pub fn state_add_weak(raw: u64, val: u32) -> u64 {
+        State::from_raw(raw).add_weak(val).as_raw()
+    }
+    pub fn state_with_destructed(raw: u64, dest: bool) -> u64 {
+        State::from_raw(raw).with_destructed(dest).as_raw()
+    }
+    pub fn state_with_weaked(raw: u64, weaked: bool) -> u64 {
+        State::from_raw(raw).with_weaked(weaked).as_raw()
+    }
+    /// The constants `(COUNT, WEAK_COUNT, STRONG_WIDTH, WEAK_WIDTH, EPOCH_WIDTH)`.
+    pub fn state_consts() -> (u64, u64, u32, u32, u32) {
+        (COUNT, WEAK_COUNT, STRONG_WIDTH, WEAK_WIDTH, EPOCH_WIDTH)
+    }
+    pub fn modular_le(max: isize, a: isize, b: isize) -> bool {
+        Modular::<EPOCH_WIDTH>::new(max).le(a, b)
+    }
+    pub fn modular_max(max: isize, nums: &[isize]) -> isize {
+        Modular::<EPOCH_WIDTH>::new(max).max(nums)
+    }
+}
